@@ -364,11 +364,12 @@ bool TasgridWrapper::executeCommand(){
     CArr<6> makecoms = {command_makeglobal, command_makesequence, command_makelocalp, command_makewavelet,
                         command_makefourier, command_makequadrature};
     CArr<2> quadcoms = {command_makequadrature, command_getquadrature};
-    CArr<17> constcoms = {
+    CArr<18> constcoms = {
         command_getquadrature, command_getinterweights, command_getdiffweights, command_getpoints,
         command_getneeded, command_evaluate, command_integrate, command_differentiate, command_getanisocoeff,
         command_getpoly, command_summary, command_getcoefficients, command_evalhierarchical_sparse,
-        command_evalhierarchical_dense, command_gethsupport, command_getpointsindex, command_getneededindex
+        command_evalhierarchical_dense, command_gethsupport, command_getpointsindex, command_getneededindex,
+        command_using_construct
     };
     // read grid or make a new grid
     if (not com.inside(makecoms, CArr<1>{command_makeexoquad})){
